@@ -11,8 +11,8 @@ import (
 	"errors"
 	"fmt"
 	"io"
-	"net"
 	"math/rand"
+	"net"
 	"os"
 	"path/filepath"
 	"strings"
@@ -90,7 +90,12 @@ func runServerTraces(c *Ctx, what string) {
 	if c.Thorough() {
 		n = 4000
 	}
+	stalled := 0
 	for i := 0; i < n; i++ {
+		if stalled >= 8 {
+			c.Diag("%s traces: stopped after %d runs in which the server stopped answering", what, stalled)
+			break
+		}
 		seed := c.Rng.Int63()
 		k := c02Cfg{reqServer: i%2 == 1, alloc: what == "al" || i%4 >= 2}
 		if what == "al" && i%3 == 2 {
@@ -127,6 +132,9 @@ func runServerTraces(c *Ctx, what string) {
 		}
 		res := pgRun(in, prog.reqs, ro)
 		complete := !res.timedOut && len(res.resps) == len(prog.reqs)
+		if res.timedOut {
+			stalled++
+		}
 		var midAL []string
 		var midUsed, midAvail int
 		var midOK bool
@@ -144,8 +152,15 @@ func runServerTraces(c *Ctx, what string) {
 		common := []string{kvs("srv", k.name()), kvb("alloc", k.alloc), kvx("maxtx", uint64(k.maxTx)), kvb("gated", gated), kvx("seed", uint64(seed)), kvi("reqs", len(prog.reqs))}
 		if what == "pm" {
 			tr := sftp.VerifPMTrace(in.srv)
-			cn := c.Case("pmtrace", append(common, "tr="+traceJoin(tr))...)
-			c.Obs(cn, "accepted=1", "emitted="+traceEmitted(tr))
+			// a run in which the client received every reply and Serve returned must end quiescent in the model, with
+			// one arrival per A event (C02_accepted_trace_complete then says: every request answered exactly once)
+			settled := complete && down
+			cn := c.Case("pmtrace", append(common, kvb("settled", settled), "tr="+traceJoin(tr))...)
+			if settled {
+				c.Obs(cn, "accepted=1", "emitted="+traceEmitted(tr), "quiescent=1", fmt.Sprintf("arrived=%d", traceCount(tr, 'A')))
+			} else {
+				c.Obs(cn, "accepted=1", "emitted="+traceEmitted(tr))
+			}
 			ok, why := true, ""
 			if complete {
 				if a, e := traceCount(midPM, 'A'), traceCount(midPM, 'E'); a != e {
